@@ -38,6 +38,8 @@ pub struct ScriptGen<'a> {
     pub remote_pm: u64,
     /// nested calls carry gas limits
     pub gas_limits: bool,
+    /// per-mille chance that a script panics
+    pub panic_pm: u64,
 }
 
 impl<'a> ScriptGen<'a> {
@@ -62,6 +64,7 @@ impl<'a> ScriptGen<'a> {
             reply_pm: 0,
             remote_pm: 0,
             gas_limits: false,
+            panic_pm: 3,
         }
     }
 
@@ -146,7 +149,8 @@ impl<'a> ScriptGen<'a> {
         if rng.chance(self.admin_pm, 1000) && !self.contracts.is_empty() {
             let peer = rng.pick(self.contracts).clone();
             let msg = if rng.chance(2, 3) {
-                Msg::UpdateAdmin { peer: peer.addr.clone(), ty: peer.cid.clone(), admin: rng.pick(&self.pool_addrs()).clone() }
+                // (any string is an address as far as the helper is concerned, the empty one included)
+                Msg::UpdateAdmin { peer: peer.addr.clone(), ty: peer.cid.clone(), admin: if rng.chance(1, 8) { String::new() } else { rng.pick(&self.pool_addrs()).clone() } }
             } else {
                 Msg::ClearAdmin { peer: peer.addr.clone(), ty: peer.cid.clone() }
             };
@@ -171,6 +175,11 @@ impl<'a> ScriptGen<'a> {
         if rng.chance(self.fail_pm, 1000) {
             let at = rng.below(steps.len() as u64 + 1) as usize;
             steps.insert(at, Step::Fail { code: rng.below(100_000) as u32 });
+        }
+        // very rarely the handler panics outright
+        if rng.chance(self.panic_pm, 1000) {
+            let at = rng.below(steps.len() as u64 + 1) as usize;
+            steps.insert(at, Step::Panic { tag: format!("p{}", self.nonce()) });
         }
         Script(steps)
     }
@@ -252,7 +261,7 @@ impl<'a> ScriptGen<'a> {
                 method: format!("{}:{}", h.part, h.fn_name),
                 args: Binary::from(serde_json::to_vec(&Value::Object(args)).unwrap()),
                 funds,
-                form: rng.below(3) as u8,
+                form: rng.below(3) as u8 | if rng.chance(1, 4) { 0x10 } else { 0 },
                 slot: None,
             }
         } else {
@@ -288,7 +297,7 @@ impl<'a> ScriptGen<'a> {
             label: match rng.below(7) { 0 => None, 1 => Some(String::new()), 2 => Some(format!(" sub{} ", self.nonce())), 3 => Some(rng.pick(&[" ", "\t", "x\n", "  lead", "trail  "]).to_string()), _ => Some(format!("sub{}", self.nonce())) },
             admin: if rng.chance(1, 2) { Some(rng.pick(&self.pool_addrs()).clone()) } else { None },
             funds: match rng.below(4) { 0 => Some(vec![Coin::new(rng.below(20) as u128, "ucoin")]), 1 => Some(vec![]), _ => None },
-            salt: if rng.chance(1, 3) { let n = rng.range(1, 6) as usize; Some(Binary::from(rng.bytes(n))) } else { None },
+            salt: if rng.chance(1, 3) { let n = rng.range(0, 6) as usize; Some(Binary::from(rng.bytes(n))) } else { None },
         };
         let reply = self.reply_req(rng, owner_cid, depth);
         Some(Send { msg, reply, gas_limit: if self.gas_limits { rng.gas_limit() } else { None } })
